@@ -396,6 +396,8 @@ def gen_scenario(rng, ops=None, force=None):
 
     if "dtype" in force:
         dtype = force["dtype"]
+        if not dtype.startswith("float") and params.get("nan_cells"):
+            params["nan_cells"] = False
     if "layout" in force:
         layout = list(force["layout"])
     for k, v in (force.get("like") or {}).items():
